@@ -66,7 +66,7 @@ class Prop:
     quick_examples = 300
     thorough_examples = 2000      # per shard
     shards = 16
-    max_rounds = 6                # how many distinct root causes one run will chase
+    max_rounds = 4                # how many distinct root causes one run will chase
     floors = {}                   # class -> minimal fraction of evaluations (checked at the end)
 
     def strategy(self, tier):
@@ -340,8 +340,9 @@ def write_evidence(prop, tier, seed, stats, violations, wall, findings, extra_as
         'wall_s': round(wall, 2),
         'violations': len(violations),
     }
-    os.makedirs(os.path.join(ROOT, 'evidence'), exist_ok=True)
-    path = os.path.join(ROOT, 'evidence', '%s.json' % prop.id)
+    evdir = os.environ.get('VERIF_EVIDENCE_DIR') or os.path.join(ROOT, 'evidence')
+    os.makedirs(evdir, exist_ok=True)
+    path = os.path.join(evdir, '%s.json' % prop.id)
     with open(path, 'w') as f:
         json.dump(ev, f, indent=1, default=repr)
     return ev
